@@ -66,7 +66,7 @@ def run_folding(tier, seed, viol, cov):
         for rep in range(reps):
             d, q = row["d"], row["q"]
             n = rng.choice([2, 3])
-            circ = devsim.random_circuit(rng, n, M, d, ["g1", "r1", "g2", "r2", "r1", "g2", "adj"])
+            circ = devsim.random_circuit(rng, n, M, d, ["g1", "r1", "g2", "r2", "r1", "g2", "adj", "pow"])
             ops = [decode_gate(gr, M) for gr in circ]
             tape = qp.tape.QuantumScript(ops, [qp.expval(qp.Z(0))])
             lam = q / den
